@@ -9,13 +9,35 @@ from translator import t1_operators
 ID = 'C02'
 TRANSLATORS = [t1_operators.translate]
 PROPERTY_FILE = 'Properties/C02.v'
-THEOREMS = []
+THEOREMS = ['C02_empty_wf', 'C02_step_wf', 'C02_history_wf', 'C02_history_wf_from_empty',
+            'C02_wfb_sound', 'C02_wfb_complete', 'C02_example']
 PARTIAL = {}
-LEVEL_TEXT = ''
-LEVEL_NOTE = ''
-TECHNIQUE = ''
-TRUSTED = []
-ASSUMPTIONS = []
+LEVEL_TEXT = ('proved for every modelled public mutator (all 24 constructors of History.op: add_gate/emplace_gate, '
+              'add_inputs, remove_gate, rename_gate, mark_as_output, set_outputs, set_inputs, order_inputs, '
+              'order_outputs, replace_inputs, make_block, make_block_from_slice, delete_block, remove_block, '
+              'connect_circuit + 5 wrappers, replace_subcircuit, into_bench, copy, Block.into_circuit) and lifted to '
+              'arbitrary histories by induction: the invariant WF /\\ inputs_nullary holds after every call that '
+              'returns normally; the executable check wfb used on dumped implementation states is proved equivalent '
+              'to WF; code tie by exact correspondence of the full state after every call of generated histories')
+LEVEL_NOTE = ('Coq kernel + vm_compute; hand-written model (Model/Circuit.v, Connect.v, Traverse.v, History.v); translator T1; '
+              'correspondence harness. Hypotheses of the theorems (op_ok): the start state satisfies WF and '
+              '"INPUT gates have no operands" (companion invariant, forced: replace_inputs / into_bench / right '
+              'connection break WF otherwise); an emplaced INPUT gate has no operands; circuit arguments of '
+              'connect*/replace_subcircuit satisfy the same invariant; for into_bench the comparison-like gates '
+              '(LT LEQ GT GEQ LIFF RIFF LNOT RNOT) have at most two operands. Calls that raise are outside the '
+              'statement (the model returns Err and the history stops); fuel exhaustion of the model loops is Err too')
+TECHNIQUE = ('Coq proof by per-operation invariant preservation (one lemma per public mutator: users-index '
+             'multiset bookkeeping with count, explicit rank for acyclicity, relaxed loop invariants WFmod / WFpre / '
+             'WFcore / Jinv for the mutators whose intermediate states are not well formed, cycle-check soundness '
+             'for replace_subcircuit) + induction over the history; model tied to /repo by correspondence of the '
+             'FULL state after every call of generated histories and by evaluating the reflected invariant wfb '
+             '(proved equivalent to WF) on every reached state inside Coq')
+TRUSTED = ['hypotheses of C02_step_wf / C02_history_wf (op_ok, Proofs/WFStep.v): INPUT gates have no operands '
+           '(start state, emplaced gates, circuit arguments); circuit arguments are WF; into_bench: comparison-like '
+           'gates have <= 2 operands. Each is witnessed necessary by a proved counterexample '
+           '(Proofs/WFBench.v cex_nullary_breaks, cex_ternary_breaks; Proofs/WFConnect.v cex_*)']
+ASSUMPTIONS = ['histories with invalid arguments (8% of the generated calls) and the states they produce are covered by the '
+               'correspondence and the oracle only, not by the theorem']
 
 HEADER = ('Require Import Cirbo.Model.Base Cirbo.Model.Gate Cirbo.Model.Circuit Cirbo.Model.Connect '
           'Cirbo.Model.History Cirbo.Model.WF.\n'
